@@ -1085,14 +1085,16 @@ def fam_anyfault(tier, outdir):
     scripts, meta_l = [], []
     for s, v in zip(base, count):
         if not v or not v.get("kg"):
-            raise Infra("fault-anywhere count pass failed: %s" % json.dumps(v)[:300])
+            d = dict(v or {"kind": "lost"}); d.setdefault("kind", "crash"); d["fn"] = "anyfault"; d["script"] = s; d["call"] = {"fn": "anyfault", "gfault": 0}
+            pre_bad.append(d)
+            continue
         if v.get("hung"):
             continue   # (the sequence ends in a call that never returns: nothing to sweep)
         for g in range(0, v["gcount"] + 1):   # g = 0: no fault at all - the bookkeeping must balance then too
             scripts.append(with_cfg(s, g)); meta_l.append((s, g))
     verd = run_scripts_traced_plain(scripts, outdir, "af")
     averd = run_scripts_traced_plain(scripts[::3], outdir, "af_asan", flavor="asan")
-    recs, bad = [], []
+    recs, bad = [], list(pre_bad)
     for i, v in enumerate(verd):
         if not v or not v.get("kg"):
             d = dict(v or {"kind": "lost"}); d.setdefault("kind", "crash"); d["fn"] = "anyfault"; d["script"] = scripts[i]; d["call"] = {"fn": "anyfault", "gfault": meta_l[i][1]}
